@@ -137,7 +137,12 @@ func (v *aInterface) emitGetData(destType ValueType, commaOk bool) (insts []wat.
 	}
 
 	// false:
-	ifBlock.False = NewConst("0", destType).EmitPush()
+	if _, isString := destType.(*String); isString {
+		// the literal of a string constant is its content: "0" would be the string "0", not the zero value
+		ifBlock.False = NewConst("", destType).EmitPush()
+	} else {
+		ifBlock.False = NewConst("0", destType).EmitPush()
+	}
 
 	if commaOk {
 		ifBlock.Ret = append(ifBlock.Ret, wat.I32{})
